@@ -75,3 +75,17 @@ Proof.
   specialize (Hinv sched (tinit k) ltac:(discriminate) Hc). fold s in Hinv.
   unfold goroutine_done in Hg. simpl. rewrite Hinv. destruct (tg s); try discriminate; eauto.
 Qed.
+
+(* ---------------------------------------------------------------- progress bars of a command *)
+(** the bar is completed on every path: the command returns the ingest's outcome, bars on or off *)
+Lemma command_returns bars_on o :
+  command_result bars_on true o = Some (match o with IOk => 0%N | IErr _ => 1%N end).
+Proof. unfold command_result, bar_done. simpl. now rewrite orb_true_r. Qed.
+
+(** completed only by the inserter (success path): a worker error after >= 1 saved block hangs the command *)
+Lemma command_hangs_without_defer saved :
+  saved <> 0 -> command_result true false (IErr saved) = None.
+Proof.
+  intros H. unfold command_result, bar_started, bar_done. simpl.
+  destruct (Nat.eqb saved 0) eqn:E; [apply Nat.eqb_eq in E; congruence|reflexivity].
+Qed.
